@@ -1406,6 +1406,9 @@ PPL::Grid::add_recycled_grid_generators(Grid_Generator_System& gs) {
       && (generators_are_up_to_date() || update_generators())) {
     // The grid contains at least one point.
 
+    // Adjust `gs' to the right dimension first: the divisors of a
+    // zero-dimensional system would not be normalized.
+    gs.set_space_dimension(space_dim);
     normalize_divisors(gs, gen_sys);
 
     gen_sys.insert(gs, Recycle_Input());
